@@ -14,9 +14,9 @@ from macro_scripts import load_fixtures
 import replay as _rp
 
 SYNC_FIX = ["s_lru2", "s_fifo3_ttl2", "s_lfu2", "s_arc2", "s_mem_lru", "g_a", "s_plain", "s_inv_lru2", "s_res_lru2",
-            "s_random2", "s_tlru2_ttl3_w03", "g_ab", "s_res_ttl2", "s_cif_ttl2"]
+            "s_random2", "s_tlru2_ttl3_w03", "g_ab", "s_res_ttl2", "s_cif_ttl2", "s_yield_lru2"]
 ASYNC_FIX = ["a_lru2", "a_fifo3_ttl2", "a_lfu2", "a_arc2", "a_mem_lru", "g_dep", "a_plain", "a_inv_lru2", "a_res_lru2",
-             "a_random2", "a_tlru2_ttl3_w03", "g_ev", "a_res_ttl2", "a_cif_ttl2"]
+             "a_random2", "a_tlru2_ttl3_w03", "g_ev", "a_res_ttl2", "a_cif_ttl2", "a_yield_lru2"]
 
 
 def call(f, k, **kw):
@@ -155,7 +155,7 @@ def plan(pid, tier, seed, fx):
                          "strategy": {"kind": "random", "max_schedules": 500 if thorough else 30, "seed": seed},
                          "probe": probe, "hang_ms": 20000})
     elif pid == "C03":
-        for f in ("s_plain", "a_plain"):
+        for f in ("s_plain", "a_plain", "s_yield", "a_yield", "s_lru_unb", "a_lru_unb", "a_lfu_unb"):
             A = [call(f, 1), call(f, 2)]
             for nt, ml, n in ((2, 2, 40), (3, 1, 8), (3, 2, 400 if thorough else 20), (2, 3, 300 if thorough else 0)):
                 if n == 0:
@@ -165,7 +165,7 @@ def plan(pid, tier, seed, fx):
                              "probe": [], "hang_ms": 20000})
     elif pid == "C15":
         for f in ("s_plain", "a_plain", "s_lru2", "a_lru2", "s_fifo3_ttl2", "a_fifo3_ttl2", "s_lfu2", "a_lfu2", "g_alias",
-                  "g_alias_async", "s_res_lru2", "a_res_lru2"):
+                  "g_alias_async", "s_res_lru2", "a_res_lru2", "s_lru_unb", "a_arc_unb", "s_tlru_unb", "a_yield"):
             A = [call(f, 1), call(f, 2), call(f, 3), {"op": "inv_with", "x": fx[f]["cache_name"], "sel": ["1", "2"]}]
             for pre in prefixes(fx, f)[:3]:
                 jobs.append({"fixtures": [f], "prefix": pre, "programs": programs(rng, A, 3 if thorough else 2, 2, 400 if thorough else 20),
@@ -481,7 +481,7 @@ def lock_protocol_conformance(pid, tier, wd, all_tr, drift):
             if len(names) != 1:
                 continue
             cfgd, meta = rec["cfgs"][names[0]], rec["metas"][names[0]]
-            if cfgd["policy"] not in ELIGIBLE_POL or meta["hasInv"] or rec.get("panic"):
+            if cfgd["policy"] not in ELIGIBLE_POL or meta["hasInv"] or rec.get("panic") or "yield" in names[0]:
                 continue
             # DashMap shard locks are scheduling points of the real run but Conc.tla treats DashMap
             # operations as part of the surrounding lock-free code: replay only schedules in which no
